@@ -41,6 +41,8 @@ func Cred(class string, user bool) string {
 		return " " + base + " "
 	case "long":
 		return strings.Repeat(base+"-", 12)
+	case "huge": // an access token / passphrase of 1.5 KiB: the AUTH line is far beyond 1000 octets (RFC 4954: up to 12288)
+		return strings.Repeat(base+"-0123456789abcdef-", 60)
 	}
 	return base + class
 }
